@@ -74,6 +74,14 @@ func (g *gen) Generate(typs []types.Type) error {
 }
 
 func canEqual(tt types.Type) bool {
+	if named, isNamed := tt.(*types.Named); isNamed {
+		for i := 0; i < named.NumMethods(); i++ {
+			if named.Method(i).Name() == "Equal" {
+				// a type with its own Equal method is compared with the equal plugin, which calls that method.
+				return false
+			}
+		}
+	}
 	t := tt.Underlying()
 	switch typ := t.(type) {
 	case *types.Basic:
